@@ -920,6 +920,12 @@ class C06(Prop):
             mk("range-lvalue-shared-%s" % ("statement", "value")[f], "lpc", rng_head +
                ["arangev 0 0 2 6 %d" % f, "arangev 0 2 2 6 %d" % f, "arangev 0 1 1 6 %d" % f, "arangev 0 0 3 6 %d" % f, "arangev 0 2 0 6 %d" % f,
                 "assign 7 0", "arangev 0 0 2 7 %d" % f, "arangev 0 1 0 7 %d" % f, "arangev 5 0 4 6 %d" % f, "arangev 6 0 1 5 %d" % f] + rng_tail)
+        # repaired defect: the array assigned to its own whole range (a[0..<1] = a) released every element that only the array
+        # held and then copied it (heap-use-after-free)
+        for f in (0, 1):
+            mk("range-lvalue-self-%s" % ("statement", "value")[f], "lpc",
+               ["newarr 0 2", "newarr 1 1", "newmap 2", "aset 0 0 1", "aset 0 1 2", "free 1", "free 2", "assign 6 0", "arangev 0 0 2 6 %d" % f,
+                "aget 7 0 0", "aget 8 6 1", "arangev 6 0 2 0 %d" % f, "arangev 0 0 1 6 %d" % f, "free 0", "free 6", "free 7", "free 8"])
         mk("range-lvalue-buffer", "lpc", ["newbuf 0 6", "assign 1 0", "brange 0 0 2 2", "brange 0 1 2 1", "brange 0 5 0 3", "brange 1 0 6 1",
                                           "brange 0 0 8 8", "free 0", "free 1"])
         mk("errors-lpc", "lpc", ["newarr 0 2", "newmap 1", "newobj 0", "mset 1 0 0", "err 0 1", "efun 10 0 1",
